@@ -303,6 +303,15 @@ def run(prop, tier, sd, rep, clauses, modes):
         mprogs = [progs[i] for i in ok]
         unmodelled = {p['decl']: p['unmodelled'] for p in mprogs if p['unmodelled']}
         flags, mstates, mtrans, _ = wb.model_check(w, mdecls, mprogs, modes='none' if modes == 'none' else None)
+        # white-box conformance: real executions must be behaviours of the extracted programs (InjectorTrace.tla)
+        tbd = collections.defaultdict(list)
+        for tr, evs in events_by_tr.items():
+            if evs and evs[0].get('ev') == 'Call':
+                tbd[evs[0]['decl']].append(evs)
+        wt_ok, wt_states, wt_fail = wb.trace_validate(w, mdecls, mprogs, tbd, per_prog=4 if quick else 12, cap=500 if quick else 4000)
+        for did, ti, pos, around in wt_fail:
+            rep.problem('Injector.tla cannot explain a real execution of %s (trace %d, stuck before visible event %d: %s): the model of Go\'s '
+                        'primitives or the extractor misrepresents the generated code' % (did, ti, pos, json.dumps(around)[:400]))
         model_sigs = collections.defaultdict(list)
         witness = set()
         wanted_modes = set(modes.split(','))
@@ -420,6 +429,7 @@ def run(prop, tier, sd, rep, clauses, modes):
             'generator_refused': sorted(gen_fail)[:20], 'not_compiling_skipped': sorted(comp_fail)[:20],
             'driver_not_generated': sorted(dg_fail)[:20],
             'programs_model_checked': len(mprogs) - len(unmodelled), 'programs_unmodelled': unmodelled,
+            'real_executions_explained_by_extracted_program': wt_ok, 'whitebox_trace_states': wt_states,
             'model_states_distinct': mstates, 'model_transitions': mtrans,
             'trace_events_validated': len(lines), 'real_executions': nexec,
             'programs_with_exhaustive_gate_dfs': exhaustive_progs,
